@@ -199,7 +199,7 @@ theorem parseVal_toRat (t : Tok) (q : ℚ) (h : parseNum? t = some q) : ∃ v, p
     injection this with this
     exact ⟨.int i, rfl, by simp [Val.toRat, this]⟩
   | none =>
-    simp only [h, Option.map_some]
+    simp only [h]
     exact ⟨.num q, rfl, rfl⟩
 
 theorem parseVal_intTok (i : Int) : parseVal (intTok i) = .ok (.int i) := by
